@@ -16,12 +16,29 @@ Leaf(inloop) == IF Deep = 1
                 ELSE {<<Tr(9)>>, <<Rs("E1")>>, <<Rs("E3")>>, <<[k |-> "return", n |-> 7]>>, <<[k |-> "reraise"]>>}
                      \cup (IF inloop THEN {<<[k |-> "break"]>>, <<[k |-> "continue"]>>} ELSE {})
 LeafE(inloop) == Leaf(inloop) \cup {<<>>}
-It(n, sup, er, xr) == [n |-> n, sup |-> sup, er |-> er, xr |-> xr, q |-> FALSE]
+ItA(n, sup, xr, tg, ev, sx) == [n |-> n, sup |-> sup, er |-> "", xr |-> xr, q |-> FALSE, ev |-> ev, tg |-> tg, sx |-> sx]
+It(n, sup, er, xr) == [n |-> n, sup |-> sup, er |-> er, xr |-> xr, q |-> FALSE, ev |-> "self", tg |-> "", sx |-> ""]
 Hd(ty, body) == [types |-> <<ty>>, bind |-> FALSE, name |-> "ex", n |-> 3, body |-> body]
 ItemSets == {<<It(1, s, "", "")>> : s \in BOOLEAN} \cup
             {<<It(1, s1, "", ""), It(2, s2, "", "")>> : s1 \in BOOLEAN, s2 \in BOOLEAN} \cup
             {<<It(1, TRUE, "E1", "")>>, <<It(1, FALSE, "", ""), It(2, TRUE, "E1", "")>>,
              <<It(1, FALSE, "", ""), It(2, FALSE, "", "E3")>>, <<It(1, FALSE, "", "E3")>>}
+\* `with ... as TARGET`: <<target form, value of __enter__, exception of the recording holder's store>>
+\* (nesting 2 with the small leaf set: one representative per way of succeeding / raising)
+AsOk   == IF Deep = 1 THEN {<<"name", "self", "">>, <<"tupst", "t2", "">>}
+          ELSE {<<"name", "self", "">>, <<"tup", "t2", "">>, <<"star", "t3", "">>, <<"star", "t1", "">>, <<"attr", "int", "">>,
+                <<"tupst", "t2", "">>}
+AsFail == IF Deep = 1 THEN {<<"tup", "int", "">>, <<"attr", "self", "E1">>, <<"tupst", "t2", "E1">>}
+          ELSE {<<"tup", "self", "">>, <<"tup", "t3", "">>, <<"lst", "t1", "">>, <<"star", "t0", "">>, <<"star", "int", "">>,
+                <<"attr", "self", "E1">>, <<"sub", "t2", "E3">>, <<"tupst", "t2", "E1">>, <<"tupst", "t3", "E1">>,
+                <<"slot", "self", "">>, <<"idx", "int", "">>}
+AsOkItems   == {<<ItA(1, s, "", a[1], a[2], a[3])>> : s \in BOOLEAN, a \in AsOk}
+\* the binding raises in the only / the second / the first item (then the second item is never constructed);
+\* also with an __exit__ that raises in turn
+AsFailItems == {<<ItA(1, s, "", a[1], a[2], a[3])>> : s \in BOOLEAN, a \in AsFail} \cup
+               {<<ItA(1, s1, "", "name", "self", ""), ItA(2, s2, "", a[1], a[2], a[3])>> : s1 \in BOOLEAN, s2 \in BOOLEAN, a \in AsFail} \cup
+               {<<ItA(1, s1, "", a[1], a[2], a[3]), It(2, TRUE, "", "")>> : s1 \in BOOLEAN, a \in AsFail} \cup
+               {<<ItA(1, FALSE, "E3", a[1], a[2], a[3])>> : a \in AsFail}
 
 \* compounds of nesting 1; d = 1..2 offsets the site numbers
 D1(inloop) ==
@@ -31,7 +48,8 @@ D1(inloop) ==
 \cup {[k |-> "try", body |-> b, handlers |-> <<Hd("E1", h)>>, orelse |-> o, final |-> f] :
          b \in Leaf(inloop), h \in Leaf(inloop), o \in {<<>>, <<Tr(6)>>}, f \in LeafE(inloop)}
 \cup {[k |-> "try", body |-> b, handlers |-> <<>>, orelse |-> <<>>, final |-> f] : b \in Leaf(inloop), f \in Leaf(inloop)}
-\cup {[k |-> "with", items |-> it, body |-> b] : it \in ItemSets, b \in Leaf(inloop)}
+\cup {[k |-> "with", items |-> it, body |-> b] : it \in ItemSets \cup AsOkItems, b \in Leaf(inloop)}
+\cup {[k |-> "with", items |-> it, body |-> <<Tr(9)>>] : it \in AsFailItems}                  \* the body is never reached
 \cup {[k |-> "call", f |-> 2, n |-> 5]}
 
 \* outer constructs with a hole h (h is a block); each with the loop status of the hole
@@ -117,6 +135,16 @@ Lifo(o, k, stk) ==
   ELSE Lifo(o, k + 1, stk)
 ExitPairsEnterLIFO(o) == Lifo(o, 1, <<>>)
 
+\* a binding of an `as` target that raises lies inside the region its manager protects: the very next thing is that
+\* manager's __exit__ (innermost entered one by ExitPairsEnterLIFO) receiving the binding's exception - no later
+\* item, no statement of the body in between; and the body of a with statement never starts after a failed binding
+NextReal(o, m) == CHOOSE j \in (m + 1)..Len(o) : o[j].e # "g" /\ \A k \in (m + 1)..(j - 1) : o[k].e = "g"
+BindFailureIsProtected(o) ==
+  \A m \in 1..Len(o) : IsG(o[m], "BF") =>
+     /\ \E j \in (m + 1)..Len(o) : o[j].e # "g"
+     /\ LET j == NextReal(o, m) IN o[j].e = "exit" /\ o[j].x = o[m].x
+     /\ \A sp \in Spans(o, {"with"}) : (o[sp[1]].p = o[m].p /\ sp[1] < m /\ m < sp[2]) => In(o, sp, "B+", "body") = {}
+
 \* the else clause of a loop runs iff no round of the loop ended in break / return / raise;
 \* a break makes the loop complete normally
 ElseIffNoBreak(o) ==
@@ -160,6 +188,7 @@ Theorems ==
        /\ AllClosed(o)
        /\ FinallyExactlyOnce(o)
        /\ ExitPairsEnterLIFO(o)
+       /\ BindFailureIsProtected(o)
        /\ ElseIffNoBreak(o)
        /\ JumpsStayInFunction(o)
        /\ SelfAccept(prog, o)
@@ -181,4 +210,19 @@ ASSUME Deep = 1 \/ Occurs(BreakSkipsElse)
 ASSUME Deep = 1 \/ Occurs(ReturnThroughCall)
 ASSUME Deep = 1 \/ Occurs(FinallyOverrides)
 ASSUME Deep = 1 \/ Occurs(EnterFails)
+\* a binding fails; the manager swallows it and the with statement completes normally; an outer manager sees a normal
+\* exit after the inner one swallowed the binding's exception; a successful binding is observed in the body
+BindFails(o) == \E m \in 1..Len(o) : IsG(o[m], "BF")
+BindFailSwallowed(o) == \E sp \in Spans(o, {"with"}) : o[sp[2]].x = "norm" /\ \E m \in sp[1]..sp[2] : IsG(o[m], "BF") /\ o[m].p = o[sp[1]].p
+BindFailOuterSeesNone(o) == \E m \in 1..Len(o) : IsG(o[m], "BF") /\ \E j \in (m + 1)..Len(o) : o[j].e = "exit" /\ o[j].n = 1 /\ o[j].x = "None"
+                                /\ \A k \in (m + 1)..(j - 1) : o[k].e \in {"g", "exit"}
+BindFailPropagates(o) == \E m \in 1..Len(o) : IsG(o[m], "BF") /\ o[Len(o)].e = "end" /\ o[Len(o)].k = "raise" /\ o[Len(o)].x = o[m].x
+BoundObserved(o) == \E m \in 1..Len(o) : o[m].e = "b"
+StoreObserved(o) == \E m \in 1..Len(o) : o[m].e = "st"
+ASSUME Deep = 1 \/ Occurs(BindFails)
+ASSUME Deep = 1 \/ Occurs(BindFailSwallowed)
+ASSUME Deep = 1 \/ Occurs(BindFailOuterSeesNone)
+ASSUME Deep = 1 \/ Occurs(BindFailPropagates)
+ASSUME Deep = 1 \/ Occurs(BoundObserved)
+ASSUME Deep = 1 \/ Occurs(StoreObserved)
 =============================================================================
